@@ -379,7 +379,16 @@ var nodeDefs = map[string]nodeDef{
 	// node keeps one ExecutionState for all groups; the outer expression's own count() is per group
 	"wherenested": {"|where(lambda: nl AND count() %% 2 == 1)", false, 0},
 	"evalnested":  {"|eval(lambda: nc * 1000 + count())\n    .as('o')", false, 0},
+	// stateCount / stateDuration whose lambda holds a stateful function (CopyReset per group in StateTrackingNode.newGroup)
+	"statecountfn":    {"|stateCount(lambda: count() %% %d == 0)\n    .as('o')", false, 1},
+	"statedurationfn": {"|stateDuration(lambda: count() %% %d != 0)\n    .as('o')\n    .unit(1s)", false, 1},
+	"winstatecountfn": {"|window()\n    .periodCount(%d)\n    .everyCount(%d)\n  |stateCount(lambda: count() %% 2 == 0)\n    .as('o')", true, 2},
 	// opaque: stream
+	"statecountsigma":  {"|stateCount(lambda: sigma(\"v\") < 1.0)\n    .as('o')", false, 0},
+	"statedurspread":   {"|stateDuration(lambda: spread(\"v\") < 5.0)\n    .as('o')\n    .unit(1s)", false, 0},
+	"winstatedurfn":    {"|window()\n    .periodCount(%d)\n    .everyCount(%d)\n  |stateDuration(lambda: count() %% 2 == 0)\n    .as('o')\n    .unit(1s)", true, 2},
+	"alertlevelsfn":    {"|alert()\n    .info(lambda: count() %% %d == 0)\n    .infoReset(lambda: count() %% 2 == 0)\n    .warn(lambda: spread(\"v\") > 4.0)\n    .crit(lambda: \"v\" > 8)\n    .levelField('o')", false, 1},
+	"combinefn":        {"|combine(lambda: count() %% 2 == 1, lambda: TRUE)\n    .as('a', 'b')\n    .tolerance(1s)", false, 0},
 	"alertnested": {"|alert()\n    .crit(lambda: nl)\n    .levelField('o')", false, 0},
 	"stateduration": {"|stateDuration(lambda: \"v\" > %d)\n    .as('o')\n    .unit(1s)", false, 1},
 	"derivative":    {"|derivative('v')\n    .unit(1s)\n    .as('o')", false, 0},
